@@ -13,6 +13,12 @@ CHECKS = {
  'C02': dict(cat='exploration', tech='API recorder; oracle = the supplied valid word (reference DFA); exhaustive short words + transition cover + pumped walks',
    text='All words of each of the 94 reference languages up to length 2 (3/4 thorough), one word per DFA edge and seeded pumped walks are supplied left to right; acceptance, kept order (by identity) and final check are observed. Exhaustive inside the length bound.',
    note='trusts the reference DFAs; parents get required attributes from the reference table', ref='7 C02'),
+ 'C03': dict(cat='exploration', tech='inspection of live classes after import; oracle = reference model; content models compared as automata (product construction, exact)',
+   text='Complete enumeration of the finite translation: 441 element names / 480 declarations, 228 complex types, 45 attribute groups, 27 model groups, 151+ simple types and the loaded schema copies are compared with the independent reference model; the language each per-instance container declares is compared with the reference DFA by exact product construction. exhaustive: true.',
+   note='decides the translation (declared languages, tables, bindings), not whether the matcher dynamically accepts exactly that language (C01/C02/C12)', ref='7 C03'),
+ 'C04': dict(cat='exploration', tech='API recorder over the full (class x declared attribute x route) cross product + dictionary model for sequences; oracle = reference attribute tables and lexical validator',
+   text='Every declared (class, attribute) pair (2096) is driven through constructor keyword, dot assignment and the parser with certified valid and invalid values; stored key, read-back, serialised name/value, removal by None, undeclared names, enforcement of required attributes and seeded set/overwrite/remove sequences are observed.',
+   note='validity of a value is judged on lexical forms by the reference validator; the float battery lives in C05', ref='7 C04'),
  'C06': dict(cat='exploration', tech='shadow model + invariants evaluated at every public-call boundary (incl. raise path) + exactly-once output count',
    text='After every operation of every explored history both child views are compared (by identity) with each other and with a sequential shadow model fed by API results only; parents of live and removed children and the per-child count in every serialisation are checked.',
    note='verdicts use public API only; shadow model is 15 lines', ref='7 C06'),
